@@ -158,7 +158,7 @@ def sub_tx(case):
         i2 = t2.inputs[idx]
         try:
             i2.value = ref['amount']
-            if inp['kind'] == 'p2pk':
+            if inp['kind'] in ('p2pk', 'p2pk_u'):
                 # the wire format does not carry the public key of a P2PK prevout: re-supplied by the caller
                 i2.keys = [Key(ref['pubs'][0].hex(), network=net)]
                 i2.script_type = 'signature'
@@ -205,7 +205,7 @@ def _brief(spec):
             'n_out': len(spec['outputs']), 'network': spec['network']}
 
 # ---- routes: the ways keys and previous-output data reach a transaction
-HOW_IN = ['keys', 'pub', 'nokeys']
+HOW_IN = ['keys', 'pub', 'nokeys', 'keys_spk']
 KEY_FORMS = ['Key', 'HDKey', 'bytes', 'hex', 'wif']
 CALLS = ['all', 'per_index', 'each_key', 'per_index_own']
 
@@ -236,7 +236,7 @@ def sub_route(case):
                         locktime=spec['locktime'])
         for inp in spec['inputs']:
             st, wt, comp, ms = txgen.KINDS[inp['kind']]
-            if how_in == 'keys':
+            if how_in in ('keys', 'keys_spk'):
                 ks = [Key(d.to_bytes(32, 'big').hex(), network=net, compressed=comp) for d in inp['keys']]
             elif how_in == 'pub':
                 ks = [secp.ser(secp.pub(d), comp).hex() for d in inp['keys']]
@@ -246,9 +246,11 @@ def sub_route(case):
                 t.add_input(inp['txid'], inp['vout'], script_type=st, witness_type=wt, sequence=inp['seq'],
                             value=inp['value'], compressed=comp)
             else:
+                # keys_spk: the scriptPubKey of the output being spent is handed over as well ("if known")
+                extra = {'locking_script': txgen.input_ref(inp)['spk']} if how_in == 'keys_spk' else {}
                 t.add_input(inp['txid'], inp['vout'], keys=ks if ms else ks[0], script_type=st, witness_type=wt,
                             sigs_required=inp.get('m', 1) if ms else None, sequence=inp['seq'], value=inp['value'],
-                            compressed=comp)
+                            compressed=comp, **extra)
         for o in spec['outputs']:
             a = txgen.output_address(o, net)
             if a is not None:
@@ -435,13 +437,13 @@ def run(ctx):
                         continue    # a key that belongs to no key of an input is refused by sign(): one call per input
                     rcases.append({'spec': spec, 'how_in': how, 'form': form, 'call': call, 'same_key': same_key})
     for kind in K:
-        radd([kind], False, HOW_IN if kind in single else HOW_IN[:2])
+        radd([kind], False, HOW_IN if kind in single else ['keys', 'pub', 'keys_spk'])
     for kinds in itertools.product(single, repeat=2):
         radd(kinds, False)
         radd(kinds, True)
     for kinds in itertools.product(K, repeat=2):
         if not (kinds[0] in single and kinds[1] in single):
-            radd(kinds, False, HOW_IN[:2])
+            radd(kinds, False, ['keys', 'pub', 'keys_spk'])
     if not q:
         for kinds in itertools.product(single, repeat=3):
             radd(kinds, True)
